@@ -4,8 +4,9 @@
 #include <typeinfo>
 
 bool g_relCopy = false;
+bool g_buildViaLoad = false;
 static std::unique_ptr<TA> g_keep;
-void ResetCaseFlags() { g_relCopy = false; g_keep.reset(); }
+void ResetCaseFlags() { g_relCopy = false; g_buildViaLoad = false; g_keep.reset(); }
 void ShareIfAsked(const TA& a, const json& c) { if (c.value("amode", "") == "copy") { g_keep.reset(new TA(a)); } }
 void NoteKeep(json& res, const Alpha& alpha) { if (g_keep) { res["keep_after"] = ReadTA(*g_keep, alpha); } }
 
@@ -54,10 +55,19 @@ json Alpha::Name(TA::SymbolType s) const
 // TLC's integers are 32-bit, so the specification side keeps the small stand-in); read back the same way
 static const size_t HUGE_JSON = 1000000000ULL;
 static const size_t HUGE_LIB = 1ULL << 33;
-size_t StIn(size_t q) { return q >= HUGE_JSON ? q - HUGE_JSON + HUGE_LIB : q; }
+// "top" presentation: the case numbers 1 999 999 999 - k (k < 1000) stand for the library states SIZE_MAX - k (the largest legal
+// state numbers: StateType is uintptr_t and no interface reserves a value)
+static const size_t TOP_JSON = 1999999999ULL;
+static const size_t TOP_LIB = static_cast<size_t>(-1);
+size_t StIn(size_t q)
+{
+	if (q <= TOP_JSON && TOP_JSON - q < 1000) { return TOP_LIB - (TOP_JSON - q); }
+	return q >= HUGE_JSON ? q - HUGE_JSON + HUGE_LIB : q;
+}
 size_t StOut(size_t q)
 {
-	if (q >= HUGE_LIB && q - HUGE_LIB < HUGE_JSON) { return q - HUGE_LIB + HUGE_JSON; }
+	if (TOP_LIB - q < 1000) { return TOP_JSON - (TOP_LIB - q); }
+	if (q >= HUGE_LIB && q - HUGE_LIB < HUGE_JSON - 1000) { return q - HUGE_LIB + HUGE_JSON; }
 	if (q >= HUGE_JSON) { return 2000000000ULL + q % 1000000; }      // a number no case uses (keeps the trace within 32 bits)
 	return q;
 }
@@ -65,6 +75,36 @@ size_t StOut(size_t q)
 void BuildTA(TA& aut, const json& j, Alpha& alpha)
 {
 	aut.SetAlphabet(alpha.ptr);
+	if (g_buildViaLoad)
+	{	// "build": "load" - every piece is ADDED to the object through LoadFromAutDesc (final states first, then the rules,
+		// as the loader does it), with a state translator that maps the name q<n> to the state n
+		VATA::Util::AutDescription desc;
+		desc.name = "piece";
+		if (j.contains("rules"))
+		{
+			for (const json& r : j.at("rules"))
+			{
+				VATA::Util::AutDescription::StateTuple kids;
+				for (const json& k : r.at(1)) { kids.push_back("q" + std::to_string(k.get<size_t>())); }
+				desc.symbols.insert(std::make_pair(r.at(0).get<std::string>(), static_cast<int>(kids.size())));
+				desc.transitions.insert(VATA::Util::AutDescription::Transition(kids, r.at(0).get<std::string>(),
+					"q" + std::to_string(r.at(2).get<size_t>())));
+			}
+		}
+		if (j.contains("fin"))
+		{
+			for (const json& q : j.at("fin")) { desc.finalStates.insert("q" + std::to_string(q.get<size_t>())); }
+		}
+		// the dictionary already knows every name of the piece (q<n> is the state n), so the loader invents no number
+		VATA::AutBase::StateDict dict;
+		auto know = [&dict](const std::string& name) {
+			if (dict.FindFwd(name) == dict.EndFwd()) { dict.insert(std::make_pair(name, StIn(static_cast<size_t>(std::stoull(name.substr(1)))))); } };
+		for (const auto& t : desc.transitions) { know(t.third); for (const auto& k : t.first) { know(k); } }
+		for (const auto& q : desc.finalStates) { know(q); }
+		aut.LoadFromAutDesc(desc, dict);
+		alpha.Refresh();
+		return;
+	}
 	if (j.contains("rules"))
 	{
 		for (const json& r : j.at("rules"))
